@@ -182,6 +182,9 @@ impl Layout {
 }
 
 impl Check for C10 {
+    fn quick_is_thorough(&self) -> bool {
+        true
+    }
     fn id(&self) -> &'static str {
         "C10"
     }
